@@ -224,7 +224,9 @@ theorem tryNormalize_assertion {d : List (DomVar α)} {lhs rhs e : Exp α} {cmp 
         · cases hpick
     split at h
     · split at h <;> cases h
-    · split at h <;> (injection h with h; first | (injection h with h1 _; rw [← h1]; exact he') | cases h)
+    · split at h <;> first
+        | (injection h with h; first | (injection h with h1 _; rw [← h1]; exact he') | cases h)
+        | (split at h <;> cases h)  -- fix ba14904: the two constant verdicts are guarded by `mayBeUndefined`
 
 omit hN hp hs hB in
 theorem bind_ok {x : M α β} {f : β → M α γ} {s s' : St α} {c : γ} (h : (x >>= f) s = .ok (c, s')) :
